@@ -13,7 +13,10 @@ use std::fmt::Debug;
 use std::path::{Path, PathBuf};
 use std::time::Instant;
 
-pub const VERIF_ROOT: &str = "/verif";
+/// Root for evidence/, replays/ and known_findings.json (overridable for scratch work copies).
+pub fn verif_root() -> String {
+    std::env::var("VERIF_ROOT_DIR").unwrap_or_else(|_| "/verif".to_string())
+}
 
 #[derive(Clone, Copy, PartialEq, Eq, Debug)]
 pub enum Tier {
@@ -143,7 +146,7 @@ pub fn digest_value(v: &Value) -> u64 {
 impl Ctx {
     pub fn new(prop: &'static str, tier: Tier, seed: u64, replay_file: Option<&Path>) -> Self {
         let mut known = Vec::new();
-        let kf_path = Path::new(VERIF_ROOT).join("known_findings.json");
+        let kf_path = Path::new(&verif_root()).join("known_findings.json");
         if let Ok(text) = std::fs::read_to_string(&kf_path) {
             if let Ok(v) = serde_json::from_str::<Value>(&text) {
                 if let Some(arr) = v.get("findings").and_then(|f| f.as_array()) {
@@ -325,7 +328,7 @@ impl Ctx {
             "tier": self.tier.name(),
             "case": case,
         });
-        let dir = Path::new(VERIF_ROOT).join("replays").join(self.prop);
+        let dir = Path::new(&verif_root()).join("replays").join(self.prop);
         let _ = std::fs::create_dir_all(&dir);
         let d = digest_value(&json!({"sub": sub, "case": case}));
         let path = dir.join(format!("{}-{:016x}.json", sub, d));
@@ -373,7 +376,7 @@ impl Ctx {
 
     /// Committed replays for this sub-check (regression tier), run before generation.
     fn committed_replays(&self, sub: &str) -> Vec<(PathBuf, Value)> {
-        let dir = Path::new(VERIF_ROOT).join("replays").join(self.prop);
+        let dir = Path::new(&verif_root()).join("replays").join(self.prop);
         let mut out = Vec::new();
         if let Ok(rd) = std::fs::read_dir(&dir) {
             let mut files: Vec<_> = rd.flatten().map(|e| e.path()).collect();
@@ -581,7 +584,7 @@ impl Ctx {
             "wall_s": (wall * 1000.0).round() / 1000.0,
             "violations": st.violations.len(),
         });
-        let dir = Path::new(VERIF_ROOT).join("evidence");
+        let dir = Path::new(&verif_root()).join("evidence");
         let _ = std::fs::create_dir_all(&dir);
         let path = dir.join(format!("{}.json", self.prop));
         if let Err(e) = std::fs::write(&path, serde_json::to_string_pretty(&ev).unwrap()) {
